@@ -14,9 +14,9 @@ import (
 )
 
 type caseList struct {
-	lines []string
-	class []string
-	hang  []bool // predicted endless loop: subject to the global hang budget
+	lines   []string
+	class   []string
+	hang    []bool // predicted endless loop: subject to the global hang budget
 	dropped map[string]int
 }
 
@@ -121,11 +121,15 @@ func main() {
 		obs := p.runAll(lines)
 		for j, i := range idx {
 			f := strings.Fields(cl.lines[i])
-			if f[0] == "dnsproc" { // Go-side oracle: decoders modelled by the DNS cluster
-				r.Stat("oracle.dnsproc."+obs[j], 1)
-				r.Stat("payloadid.PayloadDNS", 1)
+			if f[0] == "dnsproc" || f[0] == "dnsq" || f[0] == "dnsans" { // Go-side oracle: decoders modelled by the DNS cluster
+				r.Stat("oracle."+f[0]+"."+obs[j], 1)
+				r.Stat("class."+cl.class[i], 1)
+				if f[0] == "dnsproc" {
+					r.Stat("payloadid.PayloadDNS", 1)
+				}
 				if strings.HasPrefix(obs[j], "panic") || obs[j] == "fuel" {
-					r.Viol("dns-processdns-"+obs[j], "ProcessDNS "+obs[j]+" on a frame accepted by Parse", cl.lines[i])
+					what := map[string]string{"dnsproc": "ProcessDNS on a frame accepted by Parse", "dnsq": "DecodeQuestion", "dnsans": "DNSEntry.DecodeAnswers"}[f[0]]
+					r.Viol("dns-"+f[0]+"-"+obs[j], what+": "+obs[j]+" (panic = recovered panic or worker killed by a fatal runtime error)", cl.lines[i])
 				}
 				continue
 			}
@@ -145,6 +149,10 @@ func main() {
 		}
 	}
 	r.Stat("hangs", hangs)
+	r.Stat("worker.deaths", workerDeaths)
+	for _, n := range deathNotes {
+		r.Sample(n)
+	}
 }
 
 // genCorpus adds the committed witnesses (corpus/C08/*.txt): case lines, or raw messages
